@@ -190,6 +190,45 @@ def run(ctx):
         r.ok(f'read-locked regions ({", ".join(rdfns)[:120]}) write no global', loc=em.src, facts={'functions_with_read_sections': rdfns})
     r.require_min(1)
 
+    # ---------------- R18g the registry lock is never acquired while it is already held
+    r = ctx.rule('R18g', 'no function acquires the registry lock, directly or through a callee, at a point where it is already held',
+                 'pthread read-write locks are not recursive: a nested read lock deadlocks as soon as a writer queues between the two acquisitions')
+    cgl = callgraph.get(P)
+    acquirers = set()
+    for f in P.fns.values():
+        if any(i.op == 'call' and i.callee in lockset.ACQ and lockset.lock_operand(i) == reglock for i in f.insts()):
+            acquirers.add(f.name)
+    changed = True
+    while changed:
+        changed = False
+        for f in P.fns.values():
+            if f.name in acquirers:
+                continue
+            if any(i.op == 'call' and set(cgl.callees(f, i)) & acquirers for i in f.insts()):
+                acquirers.add(f.name); changed = True
+    nn = 0
+    for f in P.fns.values():
+        if f.mod is not em:
+            continue
+        for ins in f.insts():
+            if ins.op != 'call':
+                continue
+            held = LS.held_at(ins) or {}
+            if reglock not in held:
+                continue
+            direct = ins.callee in lockset.ACQ and lockset.lock_operand(ins) == reglock
+            via = sorted(set(cgl.callees(f, ins)) & acquirers)
+            if direct or via:
+                nn += 1
+                r.fail(f'{f.name}: call at line {ins.line} with the registry lock held', func=f.name,
+                       sig=f'registry lock acquired again ({"directly" if direct else "via " + via[0]}) while held', loc=ins.loc,
+                       msg=f'{f.name} holds {reglock} (mode {held[reglock]}) at line {ins.line} and ' +
+                           ('acquires it again' if direct else f'calls {via[0]}, which acquires it') + ': with a writer waiting in between, both block forever')
+    if not nn:
+        r.ok(f'no call made with the registry lock held reaches another acquisition of it ({len(acquirers)} functions can acquire it)', loc=em.src,
+             facts={'acquirers': sorted(acquirers)[:12]})
+    r.require_min(1)
+
     # ---------------- R18b
     r = ctx.rule('R18b', 'GF table refcount and table (de)allocation are serialised by one mutex',
                  'two first creates (or create vs last destroy) race on init_counter/log_table: double alloc, NULL table, use after free')
